@@ -10,22 +10,22 @@ verus! {
 // ---------------------------------------------------------------- TRUSTED model of std::num::NonZeroU64
 // (a stand-in type of the same name: `new(0)` is None, `get` returns the wrapped value; trusted to match std)
 #[derive(Clone, Copy)]
-struct NonZeroU64 { v: u64 }
+pub struct NonZeroU64 { pub v: u64 }
 
 impl NonZeroU64 {
-    const fn new(n: u64) -> (r: Option<NonZeroU64>)
+    pub const fn new(n: u64) -> (r: Option<NonZeroU64>)
         ensures
             n != 0 ==> r == Some(NonZeroU64 { v: n }),
             n == 0 ==> r is None,
     { if n == 0 { None } else { Some(NonZeroU64 { v: n }) } }
 
-    const fn get(self) -> (r: u64)
+    pub const fn get(self) -> (r: u64)
         ensures r == self.v
     { self.v }
 }
 
 // ---------------------------------------------------------------- proved helper lemmas
-proof fn lemma_mul_u64_fits_u128(a: u64, b: u64)
+pub proof fn lemma_mul_u64_fits_u128(a: u64, b: u64)
     ensures
         a as int * b as int <= u128::MAX as int,
         (a as u128) * (b as u128) == a as int * b as int,
@@ -39,7 +39,7 @@ proof fn lemma_mul_u64_fits_u128(a: u64, b: u64)
 @*/
 
 // The mathematical meaning of "value/total >= num/den" (exact, over unbounded integers).
-spec fn frac_met(num: int, den: int, value: int, total: int) -> bool {
+pub open spec fn frac_met(num: int, den: int, value: int, total: int) -> bool {
     value * den >= total * num
 }
 
@@ -106,17 +106,17 @@ ensures
 
 // TRUSTED stand-in for the part of `EpochInfo` the quorum predicates read: only `total_stake`.
 // (The `validators` vector is irrelevant to these four functions.)
-struct EpochInfo {
-    total_stake: Stake,
+pub struct EpochInfo {
+    pub total_stake: Stake,
 }
 
 // The property statements' thresholds, written from properties.jsonl (C03/C06/C09):
 // "at least 20% / 40% / 60% / 80% of total stake", exact over the integers.
-spec fn at_least_pct(stake: int, total: int, pct: int) -> bool {
+pub open spec fn at_least_pct(stake: int, total: int, pct: int) -> bool {
     stake * 100 >= total * pct
 }
 
-proof fn lemma_pct_is_fifths(stake: int, total: int)
+pub proof fn lemma_pct_is_fifths(stake: int, total: int)
     ensures
         at_least_pct(stake, total, 20) == frac_met(1, 5, stake, total),
         at_least_pct(stake, total, 40) == frac_met(2, 5, stake, total),
